@@ -55,87 +55,90 @@ Proof.
 Qed.
 
 Definition floor_div_raw (a b : Z) : Z :=
-  let tmp := Z.quot a b in if tmp * b =? a then tmp else tmp - (if xorb (a <? 0) (b <? 0) then 1 else 0).
+  let q := Z.quot a b in
+  if negb (Z.rem a b =? 0) && negb (Bool.eqb (a <? 0) (b <? 0)) then q - 1 else q.
 
 Lemma floor_div_raw_spec : forall a b, b <> 0 -> floor_div_raw a b = a / b.
 Proof.
   intros a b Hb. unfold floor_div_raw.
   destruct (trunc_facts a b Hb) as (He & Hr & Hs1 & Hs2).
   set (q := Z.quot a b) in *. set (r := Z.rem a b) in *. clearbody q r.
-  destruct (q * b =? a) eqn:E.
+  destruct (r =? 0) eqn:E; cbn [negb andb].
   - apply Z.div_unique with (r := 0); lia.
   - assert (r <> 0) by lia.
-    destruct (a <? 0) eqn:Ea; destruct (b <? 0) eqn:Eb; cbn [xorb].
+    destruct (a <? 0) eqn:Ea; destruct (b <? 0) eqn:Eb; cbn [Bool.eqb negb].
     + apply Z.div_unique with (r := r); [right; nia | lia].
     + apply Z.div_unique with (r := r + b); [left; nia | lia].
     + apply Z.div_unique with (r := r + b); [right; nia | lia].
     + apply Z.div_unique with (r := r); [left; nia | lia].
 Qed.
 
-Lemma floor_mod_raw_spec : forall a b, b <> 0 -> Z.rem (b + Z.rem a b) b = a mod b.
+Definition floor_mod_raw (a b : Z) : Z :=
+  let r := Z.rem a b in
+  if negb (r =? 0) && negb (Bool.eqb (r <? 0) (b <? 0)) then r + b else r.
+
+Lemma floor_mod_raw_spec : forall a b, b <> 0 -> floor_mod_raw a b = a mod b.
 Proof.
-  intros a b Hb.
+  intros a b Hb. unfold floor_mod_raw.
   destruct (trunc_facts a b Hb) as (He & Hr & Hs1 & Hs2).
-  set (q := Z.quot a b) in *. set (r := Z.rem a b) in *.
-  destruct (trunc_facts (b + r) b Hb) as (He2 & Hr2 & Hs3 & Hs4).
-  clearbody q r. set (q2 := Z.quot (b + r) b) in *. set (r2 := Z.rem (b + r) b) in *. clearbody q2 r2.
-  (* r2 is the representative of a with the sign of b *)
-  assert (Hcase : (0 <= r2 < b \/ b < r2 <= 0)) by nia.
-  apply Z.mod_unique with (q := q + q2 - 1); [assumption | nia].
+  set (q := Z.quot a b) in *. set (r := Z.rem a b) in *. clearbody q r.
+  destruct (r =? 0) eqn:E; cbn [negb andb].
+  - apply Z.mod_unique with (q := q); [lia | lia].
+  - destruct (r <? 0) eqn:Er; destruct (b <? 0) eqn:Eb; cbn [Bool.eqb negb].
+    + apply Z.mod_unique with (q := q); [right; lia | lia].
+    + apply Z.mod_unique with (q := q - 1); [left; lia | lia].
+    + apply Z.mod_unique with (q := q - 1); [right; lia | lia].
+    + apply Z.mod_unique with (q := q); [left; lia | lia].
 Qed.
 
-(* the statement about the cell-level operations *)
-Lemma forth_div_spec : forall w a b, 0 < w -> b <> 0 -> - 2 ^ (w - 1) <= a < 2 ^ (w - 1) -> - 2 ^ (w - 1) <= b < 2 ^ (w - 1) ->
-  div_traps w a b = false -> forth_div w a b = a / b.
+Lemma div_in_range : forall w a b, 0 < w -> b <> 0 -> b <> -1 ->
+  - 2 ^ (w - 1) <= a < 2 ^ (w - 1) -> - 2 ^ (w - 1) <= a / b < 2 ^ (w - 1).
 Proof.
-  intros w a b Hw Hb Ha Hbr Ht. unfold forth_div. fold (floor_div_raw a b). rewrite floor_div_raw_spec by assumption.
-  apply wrap_id; [assumption|].
-  unfold div_traps, min_int in Ht.
+  intros w a b Hw Hb Hb1 Ha.
   assert (Hp : 0 < 2 ^ (w - 1)) by (apply pow2_pos; lia).
   destruct (Z_lt_dec 0 b).
-  - pose proof (Z.div_le_upper_bound a b (2 ^ (w - 1) - 1)). pose proof (Z.div_le_lower_bound a b (- 2 ^ (w - 1))).
-    split; [apply Z.div_le_lower_bound; nia | apply Z.lt_le_pred, Z.div_le_upper_bound; nia].
-  - assert (b < 0) by lia.
-    rewrite <- Z.div_opp_opp by lia.
+  - split; [apply Z.div_le_lower_bound; nia | apply Z.lt_le_pred, Z.div_le_upper_bound; nia].
+  - assert (b < -1) by lia. rewrite <- Z.div_opp_opp by lia.
     split; [apply Z.div_le_lower_bound; nia | apply Z.lt_le_pred, Z.div_le_upper_bound; nia].
 Qed.
 
-Lemma forth_mod_spec : forall w a b, 0 < w -> b <> 0 -> - 2 ^ (w - 1) <= a < 2 ^ (w - 1) ->
-  (* no intermediate overflow of  b + a % b : *)
-  - 2 ^ (w - 1) <= b + Z.rem a b < 2 ^ (w - 1) ->
-  forth_mod w a b = a mod b.
+Lemma forth_div_spec : forall w a b, 0 < w -> b <> 0 -> - 2 ^ (w - 1) <= a < 2 ^ (w - 1) ->
+  forth_div w a b = wrap w (a / b).
 Proof.
-  intros. unfold forth_mod. rewrite wrap_id by assumption. apply floor_mod_raw_spec; assumption.
+  intros w a b Hw Hb Ha. unfold forth_div. destruct (b =? -1) eqn:E1.
+  - assert (b = -1) by lia. subst b. f_equal. rewrite <- (Z.div_opp_opp a (-1)) by lia. cbn. rewrite Z.div_1_r. reflexivity.
+  - fold (floor_div_raw a b). rewrite floor_div_raw_spec by assumption.
+    symmetry. apply wrap_id; [assumption|]. apply div_in_range; try assumption; lia.
 Qed.
 
-(* a sufficient, easily checked, condition for the absence of intermediate overflow *)
-Lemma forth_mod_spec_small : forall w a b, 1 < w -> b <> 0 -> - 2 ^ (w - 1) <= a < 2 ^ (w - 1) -> Z.abs b <= 2 ^ (w - 2) ->
-  forth_mod w a b = a mod b.
+Lemma forth_mod_spec : forall w a b, b <> 0 -> forth_mod w a b = a mod b.
 Proof.
-  intros w a b Hw Hb Ha Hs. apply forth_mod_spec; try lia; try assumption.
-  destruct (trunc_facts a b Hb) as (_ & Hr & _ & _).
-  assert (H2 : 2 ^ (w - 1) = 2 * 2 ^ (w - 2)).
-  { replace (w - 1) with (Z.succ (w - 2)) by lia. rewrite Z.pow_succ_r by lia. reflexivity. }
-  lia.
+  intros w a b Hb. unfold forth_mod. destruct (b =? -1) eqn:E1.
+  - assert (b = -1) by lia. subst b. symmetry. apply Z.mod_unique with (q := - a); [right; lia | lia].
+  - fold (floor_mod_raw a b). apply floor_mod_raw_spec. assumption.
 Qed.
 
-Theorem floor_div_mod_spec_proof : forall w n d, 1 < w -> d <> 0 ->
-  - 2 ^ (w - 1) <= n < 2 ^ (w - 1) -> - 2 ^ (w - 1) <= d < 2 ^ (w - 1) -> Z.abs d <= 2 ^ (w - 2) -> div_traps w n d = false ->
+(* (d) `/`, `mod`, `/mod`: floor division and modulo for ALL in-range cells with d <> 0; the only wrap-around is
+   the quotient of INT_MIN / -1 *)
+Theorem floor_div_mod_spec_proof : forall w n d, 0 < w -> d <> 0 ->
+  - 2 ^ (w - 1) <= n < 2 ^ (w - 1) -> - 2 ^ (w - 1) <= d < 2 ^ (w - 1) ->
   let q := forth_div w n d in let r := forth_mod w n d in
-  q * d + r = n /\ (0 <= r < d \/ d < r <= 0) /\ q = n / d /\ r = n mod d.
+  r = n mod d /\ q = wrap w (n / d) /\ (0 <= r < d \/ d < r <= 0) /\ wrap w (q * d + r) = n /\
+  (~ (n = - 2 ^ (w - 1) /\ d = -1) -> q = n / d /\ q * d + r = n).
 Proof.
-  intros w n d Hw Hd Hn Hdr Hs Ht q r. subst q r.
-  rewrite forth_div_spec by (try assumption; lia). rewrite forth_mod_spec_small by assumption.
-  pose proof (Z.div_mod n d Hd).
-  repeat split; try lia.
-  destruct (Z_lt_dec 0 d); [left; apply Z.mod_pos_bound; lia | right; apply Z.mod_neg_bound; lia].
-Qed.
-
-(* without the side condition on |d| the coded modulo is wrong: intermediate overflow of d + n % d *)
-Theorem floor_mod_refuted_proof : exists w n d, w = 64 /\ d <> 0 /\ - 2 ^ (w - 1) <= n < 2 ^ (w - 1) /\ - 2 ^ (w - 1) <= d < 2 ^ (w - 1) /\
-  div_traps w n d = false /\ forth_mod w n d <> n mod d.
-Proof.
-  exists 64, (2 ^ 62), (2 ^ 62 + 1). repeat split; try (vm_compute; congruence).
+  intros w n d Hw Hd Hn Hdr q r. subst q r.
+  rewrite forth_div_spec by assumption. rewrite forth_mod_spec by assumption.
+  pose proof (Z.div_mod n d Hd) as Hdm.
+  assert (Hsign : 0 <= n mod d < d \/ d < n mod d <= 0).
+  { destruct (Z_lt_dec 0 d); [left; apply Z.mod_pos_bound; lia | right; apply Z.mod_neg_bound; lia]. }
+  split; [reflexivity|]. split; [reflexivity|]. split; [assumption|]. split.
+  - symmetry. apply wrap_unique; [assumption|assumption|].
+    destruct (wrap_congr w (n / d) Hw) as [k Hk]. exists (- (k * d)). rewrite Hk. nia.
+  - intro Hnot. assert (Hq : wrap w (n / d) = n / d).
+    { apply wrap_id; [assumption|]. destruct (Z.eq_dec d (-1)) as [->|Hd1].
+      - rewrite <- (Z.div_opp_opp n (-1)) by lia. cbn. rewrite Z.div_1_r. lia.
+      - apply div_in_range; assumption. }
+    rewrite Hq. split; [reflexivity|lia].
 Qed.
 
 (* ================================================================== 2. what an instruction may change *)
@@ -1161,8 +1164,8 @@ Section Growth.
     - (* rewind *)
       assert (Hzl : zlen (g_abs g) = g_len g).
       { unfold g_abs, zlen in *. rewrite rev_length, firstn_length_le by lia. lia. }
-      rewrite Hzl. destruct (g_len g - n <? 0) eqn:E1; [reflexivity|].
-      destruct (n <? 0) eqn:E2; [reflexivity|].
+      rewrite Hzl. destruct ((n <? 0) || (g_len g - n <? 0)) eqn:E1; [reflexivity|].
+      apply orb_false_elim in E1. destruct E1 as [E2 E1].
       eexists. split; [reflexivity|]. split.
       + unfold g_inv. cbn [g_len g_res g_data]. repeat split; lia.
       + unfold g_abs. cbn [g_len g_data]. rewrite skipn_rev. f_equal.
@@ -1233,7 +1236,7 @@ Theorem wraparound_spec_proof : forall p e m a b s, 0 < p_w p -> m_stack m = b :
   exec_builtin p e m CODE_NEGATE = continue (set_stack m (wrap w (- b) :: a :: s)) /\
   exec_builtin p e m CODE_ADD1 = continue (set_stack m (wrap w (b + 1) :: a :: s)) /\
   exec_builtin p e m CODE_SUB1 = continue (set_stack m (wrap w (b - 1) :: a :: s)) /\
-  exec_builtin p e m CODE_ABS = continue (set_stack m (wrap 32 (Z.abs (wrap 32 b)) :: a :: s)) /\
+  exec_builtin p e m CODE_ABS = continue (set_stack m (wrap w (Z.abs b) :: a :: s)) /\
   exec_builtin p e m CODE_LSHIFT = continue (set_stack m (wrap w (a * 2 ^ (b mod w)) :: s)) /\
   (* where wrap w z is THE representative of z modulo 2^w in the signed range of a cell *)
   (forall z, - 2 ^ (w - 1) <= wrap w z < 2 ^ (w - 1) /\ (exists k, wrap w z = z + k * 2 ^ w) /\
@@ -1299,7 +1302,7 @@ Lemma buf_apply_err : forall b op err, buf_apply b op = BErr err -> err = E_rewi
 Proof.
   intros b op err H. destruct op as [vs|d v|n|n]; cbn [buf_apply] in H; try discriminate.
   - destruct b; [inv H; reflexivity|]. destruct (0 <? n); discriminate.
-  - destruct (zlen b - n <? 0); [inv H; reflexivity|]. destruct (n <? 0); discriminate.
+  - destruct ((n <? 0) || (zlen b - n <? 0)); [inv H; reflexivity|discriminate].
 Qed.
 
 Lemma out_apply_err : forall m o op fl m1, out_apply m o op = Ok (fl, m1) -> err_rel m m1.
